@@ -66,8 +66,25 @@ def _s(b):
     return bytes(b).decode("latin-1")
 
 
+def _norm_case(case):
+    """A Go nil slice is JSON null: make every list of a concrete case a list."""
+    for e in case.get("info") or []:
+        if e.get("s") is None:
+            e["s"] = []
+    for key in ("info", "bytes", "ops", "langs"):
+        if key in case and case[key] is None:
+            case[key] = []
+    if case.get("names") is not None:
+        case["names"] = [n or [] for n in case["names"]]
+    for lg in case.get("langs") or []:
+        if lg.get("feat") is None:
+            lg["feat"] = []
+    return case
+
+
 def _describe(case, ev):
     """(what, sig) for a rejected event of a concrete case."""
+    case = _norm_case(case)
     k = case["kind"]
     if k == "tagscript":
         ins = {(_s(x["lang"]), x["req"], tuple(sorted(x["feat"]))) for x in ev["in"]}
@@ -90,6 +107,7 @@ def _describe(case, ev):
         return what, {"part": "tagback", "kind": kind}
     if k == "names":
         brief = {a: b for a, b in ev.items() if a not in ("storage", "recs", "dec", "info")}
+        case.setdefault("info", [])
         plats = sorted({e["p"] for e in case["info"]})
         pays = [len(e["s"]) if e["p"] == 1 else 2 * sum(2 if c >= 0x10000 else 1 for c in e["s"]) for e in case["info"]]
         pays = [x for x in pays if x > 0]
@@ -243,7 +261,7 @@ def _judge(ctx, trace, label):
     first = {}
     for cid, e in rejected:
         first.setdefault(cid, e)
-    cases = {c["id"]: c for c in vlib.read_ndjson(cases_path) if c["id"] in first}
+    cases = {c["id"]: _norm_case(c) for c in vlib.read_ndjson(cases_path) if c["id"] in first}
     # isolate a few cases of every kind of rejection (kind = the signature of the rejected event), smallest first
     groups = {}
     for cid, e in first.items():
@@ -393,7 +411,7 @@ def run(ctx):
 
 
 def replay(ctx, obj):
-    cases = obj["case"]["cases"]
+    cases = [_norm_case(c) for c in obj["case"]["cases"]]
     if any(c.get("truncated") for c in cases):
         raise vlib.Infra("replay file holds a truncated case; re-run the tier instead")
     n = _replay_cases(ctx, cases)
